@@ -10,13 +10,14 @@
                                    armed    ONESHOT: not disarmed;  eout: ET: a writability report is pending
      poller       poller_epoll.go  pw       what the poller owes for the event epoll_wait handed it (the handling of
                                             the OUT bit / the resetRead after the dial callback)
+                                   prd      the event the poller holds carries IN: its read part is still to be dispatched
                                    owed     ONESHOT: calls of ResetPollerEvent owed (by the poller's handler or by
                                             the asynchronous read task) for delivered events
      ghost                         sent     bytes handed to the kernel
    One action = one critical section of Conn.mux (Write/Writev/Sendfile, flush, ResetPollerEvent, addConn's
    registration, close), one kernel step (epoll_wait returning the fd's event, the peer reading), or - for a
    dialer - the lock-free steps of readWriteLoop around the dial callback.
-   The code is modelled as it is in /repo now (D3, D19, D25, D27, D28, D31, D32, D38 repaired).
+   The code is modelled as it is in /repo now (D3, D19, D25, D27, D28, D31, D32, D38, D40 repaired).
    Who may act when: the application first sees a dialed connection in its dial callback (DialAsync returns no Conn),
    so Write/Sendfile are not enabled while dial = true; ResetPollerEvent is called for a delivered event only (by the
    poller's handler after the event's OUT bit has been handled, by the asynchronous read task, or by a custom OnRead
@@ -31,22 +32,24 @@ Record st := mk {
   q : nat; wadded : bool; closed : bool; dial : bool;
   room : nat; nospace : bool;
   reg : bool; mout : bool; armed : bool; eout : bool;
-  pw : pwork; owed : nat;
+  pw : pwork; owed : nat; prd : bool;
   sent : nat
 }.
 
-Definition init (r0 : nat) : st := mk 0 false false false r0 false false false false false WNone 0 0.
+Definition init (r0 : nat) : st := mk 0 false false false r0 false false false false false WNone 0 false 0.
 
 Definition set_q (s : st) (v : nat) : st :=
-  mk v (wadded s) (closed s) (dial s) (room s) (nospace s) (reg s) (mout s) (armed s) (eout s) (pw s) (owed s) (sent s).
+  mk v (wadded s) (closed s) (dial s) (room s) (nospace s) (reg s) (mout s) (armed s) (eout s) (pw s) (owed s) (prd s) (sent s).
 Definition set_wadded (s : st) (v : bool) : st :=
-  mk (q s) v (closed s) (dial s) (room s) (nospace s) (reg s) (mout s) (armed s) (eout s) (pw s) (owed s) (sent s).
+  mk (q s) v (closed s) (dial s) (room s) (nospace s) (reg s) (mout s) (armed s) (eout s) (pw s) (owed s) (prd s) (sent s).
 Definition set_pw (s : st) (v : pwork) : st :=
-  mk (q s) (wadded s) (closed s) (dial s) (room s) (nospace s) (reg s) (mout s) (armed s) (eout s) v (owed s) (sent s).
+  mk (q s) (wadded s) (closed s) (dial s) (room s) (nospace s) (reg s) (mout s) (armed s) (eout s) v (owed s) (prd s) (sent s).
 Definition set_owed (s : st) (v : nat) : st :=
-  mk (q s) (wadded s) (closed s) (dial s) (room s) (nospace s) (reg s) (mout s) (armed s) (eout s) (pw s) v (sent s).
+  mk (q s) (wadded s) (closed s) (dial s) (room s) (nospace s) (reg s) (mout s) (armed s) (eout s) (pw s) v (prd s) (sent s).
+Definition set_prd (s : st) (v : bool) : st :=
+  mk (q s) (wadded s) (closed s) (dial s) (room s) (nospace s) (reg s) (mout s) (armed s) (eout s) (pw s) (owed s) v (sent s).
 Definition set_dial (s : st) (v : bool) : st :=
-  mk (q s) (wadded s) (closed s) v (room s) (nospace s) (reg s) (mout s) (armed s) (eout s) (pw s) (owed s) (sent s).
+  mk (q s) (wadded s) (closed s) v (room s) (nospace s) (reg s) (mout s) (armed s) (eout s) (pw s) (owed s) (prd s) (sent s).
 
 (* ---- kernel ---- *)
 
@@ -54,22 +57,22 @@ Definition set_dial (s : st) (v : bool) : st :=
    ONESHOT entry, and re-evaluates readiness (a writable socket is reported once more) *)
 Definition kctl (s : st) (out : bool) : st :=
   mk (q s) (wadded s) (closed s) (dial s) (room s) (nospace s) (reg s) out true
-     (if out && (0 <? room s) then true else eout s) (pw s) (owed s) (sent s).
+     (if out && (0 <? room s) then true else eout s) (pw s) (owed s) (prd s) (sent s).
 
 (* EPOLL_CTL_ADD *)
 Definition kadd (s : st) (out : bool) : st :=
-  kctl (mk (q s) (wadded s) (closed s) (dial s) (room s) (nospace s) true (mout s) (armed s) (eout s) (pw s) (owed s) (sent s)) out.
+  kctl (mk (q s) (wadded s) (closed s) (dial s) (room s) (nospace s) true (mout s) (armed s) (eout s) (pw s) (owed s) (prd s) (sent s)) out.
 
 (* one send of n bytes: takes min n room; a short count (or EAGAIN) sets nospace *)
 Definition ksend (s : st) (n : nat) : st * nat :=
   let k := Nat.min n (room s) in
   (mk (q s) (wadded s) (closed s) (dial s) (room s - k) (if k <? n then true else nospace s)
-      (reg s) (mout s) (armed s) (eout s) (pw s) (owed s) (sent s + k), k).
+      (reg s) (mout s) (armed s) (eout s) (pw s) (owed s) (prd s) (sent s + k), k).
 
 (* the peer consumes k bytes (k > 0): room grows; a writability edge is raised iff nospace was set *)
 Definition kpeer (s : st) (k : nat) : st :=
   mk (q s) (wadded s) (closed s) (dial s) (room s + k) false (reg s) (mout s) (armed s)
-     (if nospace s then true else eout s) (pw s) (owed s) (sent s).
+     (if nospace s then true else eout s) (pw s) (owed s) (prd s) (sent s).
 
 Section M.
 Variable md : mode.
@@ -123,10 +126,10 @@ Definition rearm (s : st) : st :=
     end
   end.
 
-(* the poller is through with the OUT bit of the event it holds: in ONESHOT mode the event's ResetPollerEvent is now due
-   (at once after a write-only event, after the read pass / by the read task otherwise) *)
+(* the poller is through with the OUT bit of the event it holds: after a write-only event in ONESHOT mode its own
+   ResetPollerEvent is now due; an event that also carries IN gets its re-arm from the read part (ReadDispatch) *)
 Definition release (s : st) : st :=
-  set_pw (if is_os then set_owed s (S (owed s)) else s) WNone.
+  set_pw (if is_os && negb (prd s) then set_owed s (S (owed s)) else s) WNone.
 
 Inductive action :=
 | AppWrite (n : nat)        (* Write / Writev of n bytes, from any goroutine or callback, at any time *)
@@ -138,6 +141,8 @@ Inductive action :=
 | Deliver (rd spur : bool)  (* epoll_wait hands the poller the fd's event: OUT iff deliverable, IN|PRI iff rd *)
 | HandleOut                 (* the poller handles the OUT bit: takeOnConnected, then flush or the dial callback *)
 | ConnDone                  (* the dial callback has returned: under the lock, queue empty -> resetRead *)
+| ReadDispatch (co : bool)  (* the poller dispatches the IN part: the read pass in the poller (co = false), or AsyncRead: a new
+                               read task (co = false) or absorbed by the task that is already running (co = true, D40) *)
 | Rearm                     (* ResetPollerEvent owed for a delivered ONESHOT event (poller, async read task, custom OnRead) *)
 | Close.                    (* closeWithError, any cause: closed := true, queue released, fd closed *)
 
@@ -173,7 +178,7 @@ Definition step (s : st) (a : action) : st :=
       if closed s || negb (reg s) then s else
       match pw s with
       | WNone =>
-          if is_os && negb (armed s) then s else
+          if prd s || (is_os && negb (armed s)) then s else
           let out := deliverable_out s spur in
           (* a socket whose connect(2) is still pending has nothing to read; once connected it is writable *)
           if (out || rd) && negb (dial s && negb out) then
@@ -181,7 +186,7 @@ Definition step (s : st) (a : action) : st :=
                (if is_os then false else armed s)
                (if out then false else eout s)
                (if out then WOut else WNone)
-               (if is_os && negb out then S (owed s) else owed s) (sent s)
+               (owed s) rd (sent s)
           else s
       | _ => s
       end
@@ -197,10 +202,21 @@ Definition step (s : st) (a : action) : st :=
       | WConn => let s1 := release s in if q s1 =? 0 then resetRead s1 else s1
       | _ => s
       end
+  | ReadDispatch co =>
+      match pw s with
+      | WNone =>
+          if prd s then
+            let s1 := set_prd s false in
+            (* ONESHOT: the read pass / the new read task ends with ResetPollerEvent; an absorbed event is re-armed by the
+               task that is already running, which still owes its ResetPollerEvent *)
+            if is_os && negb (co && (0 <? owed s)) then set_owed s1 (S (owed s)) else s1
+          else s
+      | _ => s
+      end
   | Rearm => rearm s
   | Close =>
       if closed s then s else
-      mk 0 (wadded s) true false (room s) (nospace s) false (mout s) (armed s) (eout s) (pw s) (owed s) (sent s)
+      mk 0 (wadded s) true false (room s) (nospace s) false (mout s) (armed s) (eout s) (pw s) (owed s) (prd s) (sent s)
   end.
 
 Definition run (r0 : nat) (l : list action) : st := fold_left step l (init r0).
@@ -215,7 +231,7 @@ Fixpoint rearms (n : nat) (s : st) : st :=
    every owed ResetPollerEvent is made *)
 Definition finish (s : st) : st :=
   let s1 := step s Register in
-  let s2 := step (step s1 HandleOut) ConnDone in
+  let s2 := step (step (step s1 HandleOut) ConnDone) (ReadDispatch false) in
   rearms (owed s2) s2.
 
 (* fair round: what is under way completes, the peer makes room (k > 0 bytes), the poller handles what is deliverable;
@@ -228,4 +244,4 @@ End M.
 Definition obs (s : st) : list nat :=
   let b (x : bool) := if x then 1 else 0 in
   [q s; b (wadded s); b (closed s); room s; b (reg s); b (mout s); b (armed s); b (eout s); b (nospace s);
-   match pw s with WNone => 0 | WOut => 1 | WConn => 2 end; owed s; sent s; b (dial s)].
+   match pw s with WNone => 0 | WOut => 1 | WConn => 2 end; owed s; sent s; b (dial s); b (prd s)].
